@@ -547,12 +547,24 @@ def c09(ctx):
 
 
 # ---------------------------------------------------------------------------
+def multigen_induction(ctx):
+    """Apalache: inductive invariant of MultiGen (spec/apalache/MultiGenInd.tla) for three sources of arbitrary lengths and the
+    three strategies: no source is read beyond its end, the stream ends only when every item was handed out, the re-selection
+    never hangs; negative controls: the re-selection of the pinned commit breaks it, 'the stream never ends' is refuted."""
+    vlib.apalache(ctx, "MultiGenInd", "ConstInit", "Init", "IndInv", 0)
+    vlib.apalache(ctx, "MultiGenInd", "ConstInit", "IndInit", "IndInv", 1)
+    vlib.apalache(ctx, "MultiGenInd", "ConstInit", "IndInit", "Safety", 0)
+    vlib.apalache(ctx, "MultiGenInd", "ConstInit", "IndInit", "IndInv", 1, nxt="BadNext", expect_error=True)
+    vlib.apalache(ctx, "MultiGenInd", "ConstInit", "Init", "FalseInv", 8, expect_error=True)
+
+
 @prop("C07", "multigen", "Trace_MultiGen")
 def c07(ctx):
     q = ctx.quick()
     ms, ml = (3, 3) if q else (4, 3)
     ctx.rule = ("MC: MultiGen.tla, all length vectors with <=%d sources and lengths 0..%d, 3 strategies, every "
-                "weighted choice; negative control: the re-selection of the pinned commit hangs. A: every such vector "
+                "weighted choice; negative control: the re-selection of the pinned commit hangs; thorough tier: inductive invariant checked "
+                "with Apalache for three sources of arbitrary lengths (spec/apalache/MultiGenInd.tla). A: every such vector "
                 "run through the real generator (in-memory sources), complete iteration under a watchdog, twice per seed; "
                 "B: random vectors up to 6 sources x lengths 0..9. non-trivial = >=2 sources with different lengths" % (ms, ml))
     ctx.assumptions = ["a next() call that does not return within 5 s is a hang (the work is microseconds)"]
@@ -564,6 +576,8 @@ def c07(ctx):
     neg = ('CONSTANTS MaxSrc = 2 MaxLen = 2 Strategy = "interleaved" Buggy = TRUE\nSPECIFICATION Spec\n'
            'INVARIANTS NoHang\nCHECK_DEADLOCK FALSE\n')
     vlib.mc(ctx, "MultiGen", neg, name="MultiGen-neg", expect_violation="NoHang", coverage=False)
+    if not q:
+        multigen_induction(ctx)
     gcfg = "CONSTANTS MaxSrc = %d MaxLen = %d\nINIT Init\nNEXT Next\nCHECK_DEADLOCK FALSE\n" % (ms, ml)
     cases, n = vlib.tlc_generate(ctx, "Gen_MultiGen", gcfg, "cases-a.ndjson")
     keys = ["lens", "strategy", "seed", "out", "ended", "st"]
